@@ -15,10 +15,11 @@
    structural notion of the model.  normalize_eol and is_only_whitespace work on the flattened string, as in the code.
    Times: ClockTime.from_seconds (Model/TimeCode.v, C12) gives the millisecond count; the `begin + 10.0` of finish()
    goes through a float in the code and is modelled as + 10 000 ms (any deviation shows up in the correspondence).
-   Content model: only the dispatch the code has (Div / P / Span / Br / Text for SRT; region -> body -> div -> p, then
-   Span / Br / Text for WebVTT); every other element kind is ignored with its whole subtree, as in the code.  An
-   inline element directly under a Div (which model.py's push_child guards exclude) would be appended to the previous
-   paragraph by the code; the model ignores it.   No proofs here. *)
+   Content model: only the dispatch the code has (Div / P, then Span / Ruby / Rbc / Rb / Br / Text, for both writers; the
+   WebVTT writer walks region -> body -> child and descends through Div to P with process_div); every other element kind
+   (the ruby annotations Rt / Rtc / Rp among them) is ignored with its whole subtree, as in the code.  An inline element
+   directly under a Div (which model.py's push_child guards exclude) would be appended to the previous paragraph by the
+   SRT code; the model ignores it.   No proofs here. *)
 From TT Require Import Model.Doc Gen.StyleTables Model.Isd Model.SigTimes Model.TimeCode Model.IsdFilters Gen.CueTables.
 
 (* ---- error codes (continuing Model/Doc.v) -------------------------------------------------------------- *)
@@ -58,14 +59,55 @@ Definition strip_eol (t : text) : text := rev (drop_while is_eol (rev (drop_whil
 (* normalize_eol *)
 Definition normalize_eol (t : text) : text := strip_eol (collapse_lf t).
 
+(* ---- the paragraph text without its tags: _TAG_RE.sub(empty string, text) --------------------------------------------- *)
+Fixpoint starts (p t : text) : bool :=
+  match p, t with [], _ => true | x :: p', y :: t' => (x =? y) && starts p' t' | _ :: _, [] => false end.
+Fixpoint take_until (q : Z) (t : text) : text := match t with [] => [] | c :: t' => if c =? q then [] else c :: take_until q t' end.
+(* VttCue._TAG_RE = <[^>]*> : from a less-than sign up to the next greater-than sign; a less-than sign that no greater-than
+   sign follows is text (and so is everything after it) *)
+Fixpoint strip_vtt_go (buf : option text) (t : text) : text :=
+  match t with
+  | [] => match buf with Some b => rev b | None => [] end
+  | c :: t' =>
+      match buf with
+      | None => if c =? 60 then strip_vtt_go (Some [c]) t' else c :: strip_vtt_go None t'
+      | Some b => if c =? 62 then strip_vtt_go None t' else strip_vtt_go (Some (c :: b)) t'
+      end
+  end.
+Definition strip_vtt (t : text) : text := strip_vtt_go None t.
+(* SrtParagraph._TAG_RE = </?[biu]>|<font color=Q[^Q]*Q>|</font> (Q the double quote; the pattern text is checked by
+   harness/gen_c06.py): the length of the match at the start of t, if any *)
+Definition is_biu (c : Z) : bool := (c =? 98) || (c =? 105) || (c =? 117).
+Definition srt_font_open : text := [60; 102; 111; 110; 116; 32; 99; 111; 108; 111; 114; 61; 34].       (* <font color=Q *)
+Definition srt_tag_len (t : text) : option nat :=
+  if starts [60] t then
+    if is_biu (nth 1 t 0) && (nth 2 t 0 =? 62) then Some 3%nat
+    else if (nth 1 t 0 =? 47) && is_biu (nth 2 t 0) && (nth 3 t 0 =? 62) then Some 4%nat
+    else if starts srt_font_open t then
+      let rest := skipn 13 t in let v := take_until 34 rest in
+      if starts [34; 62] (skipn (length v) rest) then Some (13 + length v + 2)%nat else None
+    else if starts [60; 47; 102; 111; 110; 116; 62] t then Some 7%nat else None
+  else None.
+Fixpoint strip_srt_go (skip : nat) (t : text) : text :=
+  match t with
+  | [] => []
+  | c :: t' =>
+      match skip with
+      | S k => strip_srt_go k t'
+      | O => match srt_tag_len t with Some (S k) => strip_srt_go k t' | _ => c :: strip_srt_go O t' end
+      end
+  end.
+Definition strip_srt (t : text) : text := strip_srt_go O t.
+
 (* decimal printing of an int (str(n), f"{n}") *)
 Definition print_z (n : Z) : text := if n <? 0 then 45 :: digits_fuel 40 (- n) [] else digits_fuel 40 n [].
 (* "{:02x}" of a byte *)
 Definition hex_digit (d : Z) : Z := if d <? 10 then 48 + d else 87 + d.
 Definition hex2 (b : Z) : text := [hex_digit (b / 16); hex_digit (b mod 16)].
 (* "#{:02x}{:02x}{:02x}{:02x}".format(r, g, b, a) of a packed RGBA8 colour *)
+(* the value is a packed RGBA8 colour, 0 <= rgba < 2^32: the top byte is reduced like the others so that the printer is total *)
 Definition hex8 (rgba : Z) : text :=
-  hex2 (rgba / 16777216) ++ hex2 ((rgba / 65536) mod 256) ++ hex2 ((rgba / 256) mod 256) ++ hex2 (rgba mod 256).
+  hex2 ((rgba / 16777216) mod 256) ++ hex2 ((rgba / 65536) mod 256) ++ hex2 ((rgba / 256) mod 256) ++ hex2 (rgba mod 256).
 Definition color_string (rgba : Z) : text := 35 :: hex8 rgba.
 
 (* ---- srt/style.py and vtt/style.py --------------------------------------------------------------------------- *)
@@ -95,16 +137,26 @@ Definition oq_ms (o : option Q) : res (option Z) :=
   match o with None => Ok None | Some q => bind (q_ms q) (fun m => Ok (Some m)) end.
 Definition print_ms (sep : Z) (ms : Z) : text := print_clock sep (clock_fields ms).
 
-(* finish(): only the LAST paragraph is looked at *)
-Fixpoint finish_cues (esc : Z -> text) (l : list cue) : list cue :=
+(* is_only_whitespace() / is_only_whitespace_or_empty() of a paragraph after normalize_eol(): the text without its tags *)
+Definition cue_blank (strip : text -> text) (esc : Z -> text) (c : cue) : bool := only_whitespace (strip (cue_text esc c)).
+Definition srt_blank : cue -> bool := cue_blank strip_srt esc_none.
+Definition vtt_blank : cue -> bool := cue_blank strip_vtt esc_vtt.
+Definition default_end (c : cue) : cue :=
+  match c_end c with
+  | None => mkCue (c_id c) (c_begin c) (Some (c_begin c + 10000)) (c_items c) (c_line c) (c_textalign c)
+  | Some _ => c
+  end.
+(* finish(): the LAST paragraph gets the default end, or goes if it is blank; VttContext.finish() (fill = true) first gives the
+   default end to every earlier paragraph that has none (one cue per region in the unbounded last interval);
+   SrtContext.finish() (fill = false) looks at the last paragraph only *)
+Fixpoint finish_cues (fill : bool) (blank : cue -> bool) (l : list cue) : list cue :=
   match l with
   | [] => []
   | [c] => match c_end c with
-           | None => if only_whitespace (cue_text esc c) then []
-                     else [mkCue (c_id c) (c_begin c) (Some (c_begin c + 10000)) (c_items c) (c_line c) (c_textalign c)]
+           | None => if blank c then [] else [default_end c]
            | Some _ => [c]
            end
-  | c :: l' => c :: finish_cues esc l'
+  | c :: l' => (if fill then default_end c else c) :: finish_cues fill blank l'
   end.
 
 (* ---- SRT --------------------------------------------------------------------------------------------------------- *)
@@ -127,6 +179,8 @@ Fixpoint srt_inline (fmt : bool) (e : elem) : list item :=
              (if bold then [ITag srt_BOLD_TAG_OUT] else []) ++
              (match color with Some _ => [ITag srt_FONT_COLOR_TAG_OUT] | None => [] end)
            else [])
+      | KRuby | KRbc | KRb =>        (* ruby base text; the annotations (Rt, Rtc, Rp) are not written *)
+          (fix go (l : list elem) : list item := match l with [] => [] | c :: l' => srt_inline fmt c ++ go l' end) cs
       | KBr => [IChr 10]
       | KText => map IChr (e_text a)
       | _ => []
@@ -146,7 +200,7 @@ Fixpoint srt_block (fmt : bool) (b : Z) (en : option Z) (e : elem) (n : Z) : lis
              end) cs n
       | KP =>
           let c := mkCue (Some (n + 1)) b en (flat_map (srt_inline fmt) cs) None None in
-          (if only_whitespace (cue_text esc_none c) then [] else [c], n + 1)
+          (if srt_blank c then [] else [c], n + 1)
       | _ => ([], n)
       end
   end.
@@ -188,7 +242,7 @@ Fixpoint srt_strings (k : Z) (l : list cue) : res (list text) :=
   end.
 
 Definition srt_cues (fmt : bool) (seq : list (Q * list elem)) : res (list cue) :=
-  bind (srt_loop fmt seq 0) (fun cs => Ok (finish_cues esc_none cs)).
+  bind (srt_loop fmt seq 0) (fun cs => Ok (finish_cues false srt_blank cs)).
 Definition srt_of_seq (fmt : bool) (seq : res (list (Q * list elem))) : res text :=
   bind seq (fun s => bind (srt_cues fmt s) (fun cs => bind (srt_strings 1 cs) (fun ss => Ok (join_text [10] ss)))).
 (* srt.writer.from_model(doc, SRTWriterConfiguration(text_formatting = fmt)) *)
@@ -240,6 +294,12 @@ Fixpoint vtt_inline (e : elem) (s : css_state) : list item * css_state :=
            (if bold then [ITag vtt_BOLD_TAG_OUT] else []) ++
            (match color with Some _ => [ITag vtt_COLOR_TAG_OUT] | None => [] end) ++
            (match bg with Some _ => [ITag vtt_BG_COLOR_TAG_OUT] | None => [] end), s3)
+      | KRuby | KRbc | KRb =>        (* ruby base text; the annotations (Rt, Rtc, Rp) are not written *)
+          (fix go (l : list elem) (s : css_state) : list item * css_state :=
+             match l with
+             | [] => ([], s)
+             | c :: l' => let '(x, sa) := vtt_inline c s in let '(y, sb) := go l' sa in (x ++ y, sb)
+             end) cs s
       | KBr => ([IChr 10], s)
       | KText => (map IChr (e_text a), s)
       | _ => ([], s)
@@ -253,16 +313,18 @@ Fixpoint vtt_inlines (l : list elem) (s : css_state) : list item * css_state :=
 
 (* round(x) of a rational: half to even *)
 Definition round_q (q : Q) : Z := round_he (Qnum q) (Zpos (Qden q)).
+(* VttCue.set_line: max(0, min(100, line)) *)
+Definition clamp_pct (n : Z) : Z := Z.max 0 (Z.min 100 n).
 (* the line / line-alignment cue settings of process_p *)
 Definition line_setting (region : attrs) : res (Z * Z) :=
   match sget (e_styles region) p_Position, sget (e_styles region) p_Extent with
   | Some (VPos _ _ v _), Some (VExtent h _) =>
       match sget (e_styles region) p_DisplayAlign with
       | Some (VEnum da) =>
-          if da =? e_DisplayAlignType_after then Ok (round_q (Qplus (lv v) (lv h)), 2)
-          else if da =? e_DisplayAlignType_before then Ok (round_q (lv v), 0)
-          else Ok (round_q (Qplus (lv v) (Qdiv (lv h) (qz 2))), 1)
-      | _ => Ok (round_q (Qplus (lv v) (Qdiv (lv h) (qz 2))), 1)
+          if da =? e_DisplayAlignType_after then Ok (clamp_pct (round_q (Qplus (lv v) (lv h))), 2)
+          else if da =? e_DisplayAlignType_before then Ok (clamp_pct (round_q (lv v)), 0)
+          else Ok (clamp_pct (round_q (Qplus (lv v) (Qdiv (lv h) (qz 2)))), 1)
+      | _ => Ok (clamp_pct (round_q (Qplus (lv v) (Qdiv (lv h) (qz 2)))), 1)
       end
   | _, _ => Err errAttribute
   end.
@@ -280,7 +342,7 @@ Definition textalign_setting (p : attrs) : option Z :=
 
 Record vtt_state := mkVttState { v_counter : Z ; v_css : css_state }.
 
-(* process_p(region, element): element is whatever sits two levels below the region's body *)
+(* process_p(region, element) *)
 Definition vtt_process_p (cfg : vtt_config) (region : attrs) (b : Z) (en : option Z) (p : elem) (st : vtt_state)
   : res (list cue * vtt_state) :=
   let n := v_counter st + 1 in
@@ -288,23 +350,40 @@ Definition vtt_process_p (cfg : vtt_config) (region : attrs) (b : Z) (en : optio
   let ta := if text_align cfg then textalign_setting (eattrs p) else None in
   let '(items, css) := vtt_inlines (echildren p) (v_css st) in
   let c := mkCue (if cue_id cfg then Some n else None) b en items line ta in
-  if only_whitespace (cue_text esc_vtt c) then Ok ([], mkVttState (n - 1) css) else Ok ([c], mkVttState n css)).
-Fixpoint vtt_process_ps (cfg : vtt_config) (region : attrs) (b : Z) (en : option Z) (ps : list elem) (st : vtt_state)
+  if vtt_blank c then Ok ([], mkVttState (n - 1) css) else Ok ([c], mkVttState n css)).
+(* process_div(region, element): a Div hands its children to process_div, a P goes to process_p, anything else is ignored *)
+Fixpoint vtt_block (cfg : vtt_config) (region : attrs) (b : Z) (en : option Z) (e : elem) (st : vtt_state)
   : res (list cue * vtt_state) :=
-  match ps with
-  | [] => Ok ([], st)
-  | p :: ps' =>
-      bind (vtt_process_p cfg region b en p st) (fun r1 =>
-      bind (vtt_process_ps cfg region b en ps' (snd r1)) (fun r2 => Ok (fst r1 ++ fst r2, snd r2)))
+  match e with
+  | Elem a cs =>
+      match e_kind a with
+      | KDiv =>
+          (fix go (l : list elem) (st : vtt_state) : res (list cue * vtt_state) :=
+             match l with
+             | [] => Ok ([], st)
+             | c :: l' =>
+                 bind (vtt_block cfg region b en c st) (fun r1 =>
+                 bind (go l' (snd r1)) (fun r2 => Ok (fst r1 ++ fst r2, snd r2)))
+             end) cs st
+      | KP => vtt_process_p cfg region b en e st
+      | _ => Ok ([], st)
+      end
   end.
-(* for region: for body in region: for div in list(body): for p in list(div): process_p(region, p) *)
+Fixpoint vtt_blocks (cfg : vtt_config) (region : attrs) (b : Z) (en : option Z) (l : list elem) (st : vtt_state)
+  : res (list cue * vtt_state) :=
+  match l with
+  | [] => Ok ([], st)
+  | c :: l' =>
+      bind (vtt_block cfg region b en c st) (fun r1 =>
+      bind (vtt_blocks cfg region b en l' (snd r1)) (fun r2 => Ok (fst r1 ++ fst r2, snd r2)))
+  end.
+(* for region: for body in region: for div in list(body): process_div(region, div) *)
 Fixpoint vtt_regions (cfg : vtt_config) (b : Z) (en : option Z) (regions : list elem) (st : vtt_state)
   : res (list cue * vtt_state) :=
   match regions with
   | [] => Ok ([], st)
   | r :: regions' =>
-      let ps := flat_map echildren (flat_map echildren (echildren r)) in
-      bind (vtt_process_ps cfg (eattrs r) b en ps st) (fun r1 =>
+      bind (vtt_blocks cfg (eattrs r) b en (flat_map echildren (echildren r)) st) (fun r1 =>
       bind (vtt_regions cfg b en regions' (snd r1)) (fun r2 => Ok (fst r1 ++ fst r2, snd r2)))
   end.
 
@@ -356,7 +435,7 @@ Definition webvtt_header : text := [87; 69; 66; 86; 84; 84; 10; 10].
 Definition vtt_cues (cfg : vtt_config) (seq : list (Q * list elem)) : res (list cue * css_state) :=
   match vtt_filters cfg with
   | None => Err errConfig
-  | Some fs => bind (vtt_loop cfg fs seq (mkVttState 0 [])) (fun r => Ok (finish_cues esc_vtt (fst r), v_css (snd r)))
+  | Some fs => bind (vtt_loop cfg fs seq (mkVttState 0 [])) (fun r => Ok (finish_cues true vtt_blank (fst r), v_css (snd r)))
   end.
 Definition vtt_of_seq (cfg : vtt_config) (seq : res (list (Q * list elem))) : res text :=
   bind seq (fun s => bind (vtt_cues cfg s) (fun r =>
